@@ -40,6 +40,21 @@ theorem C12_shrink_thresholds_unobservable (o o' : Shrink.Opts) (ops : List Shri
       (Shrink.run (Shrink.shouldShrink o') Shrink.init ops).2 :=
   (C12_shrink_rule_unobservable _ _ ops).1
 
+/-- **IEEE special ratios.**  `shouldShrink` compares `float32(deletedKeys)/float32(size) < ratio`; for the
+legal option values NaN and -Inf that comparison is false for every quotient (and `ratio != 0.0` holds), for
++Inf it is true for every quotient.  The option encodings the tie uses for them (`⟨-1, 1, c⟩`, `⟨1, 0, c⟩`)
+make the rule of the model exactly that: NaN / -Inf — shrink whenever the map is non-empty and the count
+threshold does not block; +Inf — never shrink. -/
+theorem C12_shrink_rule_ieee_specials (c : Int) (d n : Nat) :
+    Shrink.shouldShrink ⟨-1, 1, c⟩ d n = (decide (n ≠ 0) && !(decide (c ≠ 0) && decide ((d : Int) < c))) ∧
+    Shrink.shouldShrink ⟨1, 0, c⟩ d n = false := by
+  constructor
+  · unfold Shrink.shouldShrink
+    by_cases hn : n = 0 <;> by_cases hc : c = 0 <;> by_cases hd : (d : Int) < c <;>
+      simp [hn, hc, hd] <;> omega
+  · unfold Shrink.shouldShrink
+    by_cases hn : n = 0 <;> simp [hn] <;> omega
+
 /-- The abstract model really is a map: keys stay distinct along every history, a lookup after a
 store / removal follows the map laws, and `Size` counts the keys. -/
 theorem C12_plain_map_laws :
